@@ -210,7 +210,7 @@ def execute(cases_, tier, seed):
     res.bound = "tier=%s: depth-2 space%s x %d settings" % (tier, "" if tier == "quick" else " + pairs", 2 if tier == "quick" else 4)
     res.assumptions = ["has_impl(Default) is not queried on types that reach themselves through newtype/Box/tuple/array (documented unbounded recursion)",
                        "module compile errors outside the assertion region are C01's business"]
-    if len(cases_) > 20 and (n_types < 500 or n_asserts < 500):
+    if not res.violations and (len(cases_) > 20 and (n_types < 500 or n_asserts < 500)):   # a subject that breaks everything is reported through its violations, not as vacuity
         raise MachineryError("vacuity guard: types=%d asserts=%d" % (n_types, n_asserts))
     return res
 
